@@ -110,7 +110,9 @@ func New(c Config) *ss.System {
 	}
 	type mk = func(*ss.Txn) distsys.ArchetypeResource
 	net := func(t *ss.Txn) distsys.ArchetypeResource { return ss.Var(t, "network", true, linkRead, linkWrite) }
-	netLen := func(t *ss.Txn) distsys.ArchetypeResource { return ss.Var(t, "network", true, lenRead, assertFalseWrite) }
+	netLen := func(t *ss.Txn) distsys.ArchetypeResource {
+		return ss.Var(t, "network", true, lenRead, assertFalseWrite)
+	}
 	netEn := func(t *ss.Txn) distsys.ArchetypeResource { return ss.Var(t, "network", true, toggleRead, toggleWrite) }
 	fd := func(t *ss.Txn) distsys.ArchetypeResource { return ss.Var(t, "fd", true, nil, nil) }
 	fs := func(t *ss.Txn) distsys.ArchetypeResource { return ss.Var(t, "fs", true, nil, nil) }
@@ -211,6 +213,16 @@ func ObserveHistory(pre *ss.State, p int, ev *trace.Event, post *ss.State) strin
 			typ, val = "put", m.ApplyFunction(str("body")).ApplyFunction(str("value")).AsString()
 		}
 		obs += fmt.Sprintf("i:%d:%d:%s:%s:%s;", p, post.Locals[p]["AClient.idx"].AsNumber(), typ, m.ApplyFunction(str("body")).ApplyFunction(str("key")).AsString(), val)
+	case "AClient.sndReq":
+		// every (re)transmission of the current request is recorded: a retransmitted put is what the
+		// known duplicate-application finding is about (see CheckHistory)
+		if ev != nil {
+			for _, el := range ev.Elements {
+				if w, ok := el.(trace.WriteElement); ok && w.Name == "net" {
+					obs += fmt.Sprintf("s:%d:%d;", p, pre.Locals[p]["AClient.idx"].AsNumber())
+				}
+			}
+		}
 	case "AClient.rcvResp":
 		if ev == nil {
 			return obs
@@ -246,10 +258,17 @@ var kvModel = porcupine.Model{
 
 // CheckHistory: linearizability of the acknowledged operations w.r.t. one map (one key: KEY1,
 // initial value ""); pending puts may or may not have taken effect.
-func CheckHistory(obs string) (bool, string) {
+//
+// Result: ok; or (false, "retried-put-applied-twice", ...) when the history is not linearizable but
+// becomes linearizable once every *retransmitted* put is allowed to take effect a second time at
+// some point after its retransmission (the recorded known finding: a replica that becomes primary
+// executes a re-sent PUT again, there is no per-client request table); or (false, "", ...) for any
+// other anomaly.
+func CheckHistory(obs string) (bool, string, string) {
 	type opk struct{ c, idx int }
 	var ops []porcupine.Operation
 	pos := map[opk]int{}
+	sends := map[int][]int64{}
 	t := int64(0)
 	for _, e := range strings.Split(strings.TrimSuffix(obs, ";"), ";") {
 		if e == "" {
@@ -260,13 +279,18 @@ func CheckHistory(obs string) (bool, string) {
 		var c, idx int
 		fmt.Sscan(f[1], &c)
 		fmt.Sscan(f[2], &idx)
-		if f[0] == "i" {
+		switch f[0] {
+		case "i":
 			pos[opk{c, idx}] = len(ops)
 			ops = append(ops, porcupine.Operation{ClientId: c, Input: kvIn{f[3] == "put", f[4], f[5]}, Call: t, Output: nil, Return: -1})
-		} else {
+		case "s":
+			if i, ok := pos[opk{c, idx}]; ok {
+				sends[i] = append(sends[i], t)
+			}
+		default:
 			i, ok := pos[opk{c, idx}]
 			if !ok || ops[i].Return != -1 {
-				return false, "response without a matching pending invocation: " + e
+				return false, "", "response without a matching pending invocation: " + e
 			}
 			ops[i].Return = t
 			ops[i].Output = strings.Join(f[3:], ":")
@@ -283,18 +307,51 @@ func CheckHistory(obs string) (bool, string) {
 		}
 		base = append(base, ops[i])
 	}
-	for mask := 0; mask < 1<<len(pend); mask++ {
-		h := append([]porcupine.Operation{}, base...)
-		for b, i := range pend {
-			if mask&(1<<b) != 0 {
-				o := ops[i]
-				o.Return = 1 << 40
-				h = append(h, o)
+	lin := func(extra []porcupine.Operation) bool {
+		for mask := 0; mask < 1<<len(pend); mask++ {
+			h := append([]porcupine.Operation{}, base...)
+			for b, i := range pend {
+				if mask&(1<<b) != 0 {
+					o := ops[i]
+					o.Return = 1 << 40
+					h = append(h, o)
+				}
+			}
+			h = append(h, extra...)
+			if porcupine.CheckOperations(kvModel, h) {
+				return true
 			}
 		}
-		if porcupine.CheckOperations(kvModel, h) {
-			return true, ""
+		return false
+	}
+	if lin(nil) {
+		return true, "", ""
+	}
+	var ghosts []porcupine.Operation
+	for i := range ops {
+		in := ops[i].Input.(kvIn)
+		if !in.put {
+			continue
+		}
+		for k, st := range sends[i] {
+			if k == 0 {
+				continue // the first transmission is the operation itself
+			}
+			ghosts = append(ghosts, porcupine.Operation{ClientId: 1000 + len(ghosts), Input: in, Call: st, Output: nil, Return: 1 << 40})
 		}
 	}
-	return false, "no linearization of the acknowledged operations: " + obs
+	if len(ghosts) > 0 && len(ghosts) <= 6 {
+		for mask := 1; mask < 1<<len(ghosts); mask++ {
+			var g []porcupine.Operation
+			for b := range ghosts {
+				if mask&(1<<b) != 0 {
+					g = append(g, ghosts[b])
+				}
+			}
+			if lin(g) {
+				return false, "retried-put-applied-twice", "a put that the client re-sent after the primary failed took effect a second time after a later acknowledged put: " + obs
+			}
+		}
+	}
+	return false, "", "no linearization of the acknowledged operations: " + obs
 }
